@@ -250,6 +250,78 @@ fn check2<T: Elem>(c: &mut Ctx, interp: &dyn DynInterp2<T>, spec: &Spec2<T>, qx:
     }
 }
 
+/// a batch with one out-of-range element (at a random position, preferably not the last):
+/// interp_array must fail iff one of the per-element calls fails
+fn check_error_agreement1<T: Elem>(c: &mut Ctx, interp: &dyn DynInterp1<T>, x: &[T], rng: &mut Rng) {
+    for kind in [QKind::S1, QKind::S2, QKind::Dyn] {
+        let shape: Vec<usize> = match kind {
+            QKind::S2 => vec![2, 3],
+            _ => vec![5],
+        };
+        let n: usize = shape.iter().product();
+        let mut vals = distinct_queries(rng, x[0], x[x.len() - 1], n);
+        let pos = rng.below(n - 1);
+        vals[pos] = if rng.chance(0.5) { x[x.len() - 1].up() } else { x[0].down() };
+        let qa = Query::from_vec(vals.clone(), &shape, kind);
+        let singles_fail = vals.iter().any(|&q| !interp.one(q).is_ok());
+        let o = interp.many(&qa);
+        if matches!(o, Outcome::Untypeable) {
+            continue;
+        }
+        c.ev.add("error_agreement_checked", 1);
+        if singles_fail == o.is_ok() {
+            c.bad(
+                "C09:array-vs-single-error",
+                format!(
+                    "interp_array({}) with an out-of-range element at flat position {pos}: per-element interp {} but interp_array -> {}",
+                    qa.name(),
+                    if singles_fail { "fails for one element" } else { "answers every element" },
+                    o.tag()
+                ),
+            );
+            return;
+        }
+    }
+}
+
+fn check_error_agreement2<T: Elem>(c: &mut Ctx, interp: &dyn DynInterp2<T>, x: &[T], y: &[T], rng: &mut Rng) {
+    for kind in [QKind::S1, QKind::S2, QKind::Dyn] {
+        let shape: Vec<usize> = match kind {
+            QKind::S2 => vec![2, 3],
+            _ => vec![5],
+        };
+        let n: usize = shape.iter().product();
+        let mut vx = distinct_queries(rng, x[0], x[x.len() - 1], n);
+        let mut vy = distinct_queries(rng, y[0], y[y.len() - 1], n);
+        let pos = rng.below(n - 1);
+        if rng.chance(0.5) {
+            vx[pos] = x[x.len() - 1].up();
+        } else {
+            vy[pos] = y[0].down();
+        }
+        let qx = Query::from_vec(vx.clone(), &shape, kind);
+        let qy = Query::from_vec(vy.clone(), &shape, kind);
+        let singles_fail = (0..n).any(|k| !interp.one(vx[k], vy[k]).is_ok());
+        let o = interp.many(&qx, &qy);
+        if matches!(o, Outcome::Untypeable) {
+            continue;
+        }
+        c.ev.add("error_agreement_checked", 1);
+        if singles_fail == o.is_ok() {
+            c.bad(
+                "C09:array-vs-single-error",
+                format!(
+                    "2-D interp_array({}) with an out-of-range element at flat position {pos}: per-element interp {} but interp_array -> {}",
+                    qx.name(),
+                    if singles_fail { "fails for one element" } else { "answers every element" },
+                    o.tag()
+                ),
+            );
+            return;
+        }
+    }
+}
+
 fn case_builtin1<T: Elem>(case: u64, args: &Args, ev: &mut Ev) {
     let mut rng = Rng::derive(args.seed, "C09", &[case]);
     let spline = case % 2 == 1;
@@ -288,6 +360,9 @@ fn case_builtin1<T: Elem>(case: u64, args: &Args, ev: &mut Ev) {
             c.ev.count("query_layout", lay.class());
             let qa = Query::with_layout(&ArrayD::from_shape_vec(IxDyn(&shape), vals).unwrap(), kind, &lay);
             check1(&mut c, interp, &spec, &qa, &mut rng);
+        }
+        if !spec.strat.extrapolates() && spec.n_lanes() > 0 {
+            check_error_agreement1(&mut c, interp, &x, &mut rng);
         }
     });
 }
@@ -329,6 +404,7 @@ fn case_builtin2<T: Elem>(case: u64, args: &Args, ev: &mut Ev) {
             let qy = Query::with_layout(&ArrayD::from_shape_vec(IxDyn(&shape), vy).unwrap(), kind, &ly);
             check2(&mut c, interp, &spec, &qx, &qy, &mut rng);
         }
+        check_error_agreement2(&mut c, interp, &x, &y, &mut rng);
     });
 }
 
